@@ -37,6 +37,9 @@ type FlowOpts struct {
 	// inherits (nil = the call is a leaf of kind "call").
 	Transparent func(ci *CallInfo) []ssa.Value
 	MaxDepth int
+	// Alias: follow only what can share a backing store (append aliases its
+	// first argument only; string<->[]byte conversions copy).
+	Alias bool
 	// Interproc: follow results of static calls to module functions into the
 	// callee (this many levels); parameter leaves of the callee are mapped
 	// back to the call's arguments.
@@ -164,6 +167,10 @@ func Origins(v ssa.Value, opt FlowOpts) []Origin {
 				leaf(Origin{Kind: "binop", Name: x.Op.String(), Val: x}, path)
 			}
 		case *ssa.Convert:
+			if opt.Alias && isStringy(x.X.Type()) != isStringy(x.Type()) {
+				leaf(Origin{Kind: "alloc", Name: "conversion copies", Val: x}, path)
+				return
+			}
 			rec(x.X, append(path, "convert"), d+1)
 		case *ssa.ChangeType:
 			rec(x.X, path, d+1)
@@ -174,7 +181,11 @@ func Origins(v ssa.Value, opt FlowOpts) []Origin {
 		case *ssa.TypeAssert:
 			rec(x.X, path, d+1)
 		case *ssa.Slice:
-			if elems := arrayElems(x.X); elems != nil {
+			if a, isAlloc := x.X.(*ssa.Alloc); isAlloc && opt.Alias {
+				leaf(Origin{Kind: "alloc", Name: "literal", Val: a}, path)
+				return
+			}
+			if elems := arrayElems(x.X); len(elems) > 0 {
 				for _, e := range elems {
 					rec(e, path, d+1)
 				}
@@ -315,13 +326,23 @@ func arrayElems(v ssa.Value) []ssa.Value {
 func recCall(c *ssa.Call, resultIdx int, path []string, d int, opt FlowOpts,
 	rec func(ssa.Value, []string, int), leaf func(Origin, []string), leafRaw func(Origin)) {
 	ci := callInfo(c, c.Block(), -1)
+	if opt.Alias {
+		if b, ok := c.Call.Value.(*ssa.Builtin); ok && b.Name() == "append" && len(c.Call.Args) > 0 {
+			rec(c.Call.Args[0], append(path, "append"), d+1)
+			return
+		}
+	}
 	if tr := opt.Transparent(ci); tr != nil {
 		nm := ci.Name()
 		if b, ok := c.Call.Value.(*ssa.Builtin); ok {
 			nm = b.Name()
 		}
 		for _, a := range tr {
-			rec(a, append(path, lastSeg(nm)), d+1)
+			short := nm
+			if i := strings.LastIndex(short, "."); i >= 0 {
+				short = short[i+1:]
+			}
+			rec(a, append(path, short), d+1)
 		}
 		return
 	}
